@@ -30,7 +30,8 @@ CHAIN_DEFECTS = ['untrusted-root', 'leaf-expired', 'leaf-not-yet-valid', 'interm
                  'leaf-signed-by-other-key', 'leaf-issuer-name-mismatch', 'leaf-is-issuer-of-leaf', 'root-not-in-store-same-name',
                  'unknown-critical-extension', 'upper-issuer-no-basic-constraints', 'upper-issuer-is-end-entity',
                  'untrusted-root-sent-in-chain', 'forged-root-same-name-sent-in-chain', 'forged-root-same-name-and-serial-sent-in-chain',
-                 'forged-intermediate-same-name-and-serial-as-anchor', 'untrusted-root+large-trust-store']
+                 'forged-intermediate-same-name-and-serial-as-anchor', 'untrusted-root+large-trust-store',
+                 'leaf-not-yet-valid-by-2^32-seconds', 'intermediate-not-yet-valid-by-2^32-seconds', 'leaf-not-yet-valid-by-2^31-seconds']
 KEY_DEFECTS = ['sign-key-mismatch', 'sign-key-mismatch+other-signature-scheme']
 CLIENT_ONLY = ['no-client-certificate', 'no-client-certificate+large-trust-store']
 TLCP_ONLY = ['enc-key-mismatch', 'enc-cert-untrusted']
@@ -114,6 +115,13 @@ def build_chain(tag, defect, leaf_usage=KU, leaf_cn='leaf'):
         leaf_kw = {'not_before': now - 86400 * 30, 'not_after': now - 3600}
     elif defect == 'leaf-not-yet-valid':
         leaf_kw = {'not_before': now + 3600, 'not_after': now + 86400 * 30}
+    elif defect == 'leaf-not-yet-valid-by-2^32-seconds':
+        # valid from the year 2162 on: a window that contains the present once the seconds are reduced modulo 2^32
+        leaf_kw = {'not_before': now - 86400 + (1 << 32), 'not_after': now + 86400 * 300 + (1 << 32)}
+    elif defect == 'intermediate-not-yet-valid-by-2^32-seconds':
+        inter_kw = {'not_before': now - 86400 + (1 << 32), 'not_after': now + 86400 * 300 + (1 << 32)}
+    elif defect == 'leaf-not-yet-valid-by-2^31-seconds':
+        leaf_kw = {'not_before': now - 86400 + (1 << 31), 'not_after': now + 86400 * 300 + (1 << 31)}
     elif defect == 'intermediate-expired':
         inter_kw = {'not_before': now - 86400 * 30, 'not_after': now - 3600}
     elif defect == 'issuer-no-basic-constraints':
